@@ -333,53 +333,72 @@ def evaluate(case, dyn=None, st=None):
     if st.exc is not None:
         info["lian_exc"] = st.exc
         return out, info
-    # reachability of dynamic events through statically present edges
-    ok = [False] * len(events)       # event's own edge present and its chain present
-    chain = [False] * len(events)    # chain above the event is present (so the event is demanded)
+    # reachability of dynamic events through statically present and analysed edges
+    n = len(events)
+    ok = [False] * n         # event's own edge is stored, analysed, and its chain is ok
+    chain = [False] * n      # every edge above the event is stored and analysed (so the event is demanded)
+    cyc = [0] * n            # CallPath.count_cycles() of the dynamic chain root..event (P3's recursion bound)
+    visited = [None] * n
     for i, (e, parent) in enumerate(events):
         if parent == -1:
             chain[i] = True
+            seen, c = frozenset(), 0
         elif parent >= 0:
             chain[i] = ok[parent]
+            seen, c = visited[parent], cyc[parent]
         else:
             chain[i] = False
-        ok[i] = chain[i] and (e in st.sites)
-    primary_missing = {}
+            seen, c = frozenset(), 0
+        if e[2] in seen:
+            c += 1
+        cyc[i] = c
+        visited[i] = seen | {e[0], e[2]}
+        ok[i] = chain[i] and (e in st.sites) and (e in st.frame_sites)
+    primary_missing = {}     # edge -> min cycle count over its demanded occurrences
     secondary = set()
     not_analysed = {}
     for i, (e, parent) in enumerate(events):
         if e in st.sites:
             if chain[i] and e not in st.frame_sites:
-                not_analysed.setdefault(e, i)
+                not_analysed[e] = min(not_analysed.get(e, 1 << 30), cyc[i])
             continue
         if chain[i]:
-            primary_missing.setdefault(e, i)
+            primary_missing[e] = min(primary_missing.get(e, 1 << 30), cyc[i])
         else:
             secondary.add(e)
     secondary -= set(primary_missing)
     info["secondary_missing"] = len(secondary)
     info["primary_missing"] = sorted(primary_missing)
+    info["not_analysed"] = sorted(not_analysed)
     info["present"] = sum(1 for e in edges if e in st.sites)
+
+    def classify_edge(e, mincyc):
+        k, via = kind_of(kinds, e)
+        if mincyc >= 2:
+            # every demanded occurrence sits behind P3's recursion bound (callee_path.count_cycles() > 1)
+            return ("cycle-cutoff", "-")
+        if case.get("p2") and k in c07_gen.OBJECT_KINDS:
+            # under --enable-p2 every call that needs a class or an instance fails alike: one root-cause family
+            return ("object-call", "*")
+        return (k, via)
+
+    p2s = ", --enable-p2" if case.get("p2") else ""
     tag = "missing-edge-p2" if case.get("p2") else "missing-edge"
     by_kind = {}
     for e in sorted(primary_missing):
-        k, via = kind_of(kinds, e)
-        if case.get("p2") and k in c07_gen.OBJECT_KINDS:
-            # under --enable-p2 every call that needs a class or an instance fails alike: one root-cause family
-            k, via = "object-call", "*"
-        by_kind.setdefault((k, via), []).append(e)
+        by_kind.setdefault(classify_edge(e, primary_missing[e]), []).append(e)
     for (k, via), es in sorted(by_kind.items()):
         out.append(((ID, tag, k, via),
                     "dynamic call %s (kind %s, via %s%s) is in no stored path of call_paths_p3 (%d such edge(s) in this project)" % (
-                        fmt_edge(es[0]), k, via, ", --enable-p2" if case.get("p2") else "", len(es))))
+                        fmt_edge(es[0]), k, via, p2s, len(es))))
     tag = "callee-not-analysed-p2" if case.get("p2") else "callee-not-analysed"
     by_kind = {}
     for e in sorted(not_analysed):
-        by_kind.setdefault(kind_of(kinds, e), []).append(e)
+        by_kind.setdefault(classify_edge(e, not_analysed[e]), []).append(e)
     for (k, via), es in sorted(by_kind.items()):
         out.append(((ID, tag, k, via),
-                    "call site %s (kind %s, via %s) is stored in a path but no P3 frame was analysed under it" % (
-                        fmt_edge(es[0]), k, via)))
+                    "call site %s (kind %s, via %s%s) is stored in a path but no P3 frame was analysed under it" % (
+                        fmt_edge(es[0]), k, via, p2s)))
     return out, info
 
 
